@@ -5,6 +5,7 @@
    not pinned; the switch tags of the generated Receive methods are. *)
 From Coq Require Import String NArith List.
 From QV Require Import Call Facts.
+From QV Require Teardown.
 Import ListNotations.
 Local Open Scope string_scope.
 
@@ -71,4 +72,12 @@ Proof. reflexivity. Qed.
 (* what the generator emits after the call of the method: Post test before error/reply *)
 Lemma tie_c04_generator_post_block : f_c04_generator_post_block =
   "// do not respond to post messages. if msg.Header.Type == net.Post { return nil } if callErr != nil { return c.SendError(msg, callErr) }".
+Proof. reflexivity. Qed.
+(* endPoint.closeWith: stream.Close() first, then (under the mutex) every handler is closed and removed:
+   the order of the two halves of a tear-down in Teardown.v (close_first = true), for which
+   C04_teardown_every_call_returns is stated and with which the scenarios of the harness are compared *)
+Lemma tie_c04_closewith_order : f_c04_closewith_order =
+  "e.stream.Close ; e.handlersMutex.Lock ; defer e.handlersMutex.Unlock ; range e.handlers ; go handler.closeWith ; e.handlers[id] = nil".
+Proof. reflexivity. Qed.
+Lemma tie_c04_closewith_close_first : f_c04_closewith_close_first = true.
 Proof. reflexivity. Qed.
